@@ -120,8 +120,8 @@ func (g *vhgState) step() {
 				_ = old
 			}
 		}
-	case w < 30: // clone (of an xattr fid: only in the fixed corpora, see fixes/C08-xattr-clone-unregistered.md)
-		if k, ok := g.pick(notX); ok {
+	case w < 30: // clone (of an xattr fid: refused)
+		if k, ok := g.pick(nil); ok {
 			nf := g.newFid(k[0])
 			src := *g.fids[k]
 			if g.do(vhsOp{K: "walk", A: []int{k[0], k[1], nf}, G: r.Intn(2) == 0}) == 0 {
